@@ -791,4 +791,69 @@ theorem args_pw {TokP : Tok → Prop} {T : Table} (C : Ctx TokP T) (d : CmdDef) 
         exact Rel.cons h1 h2 (args_pw C d hd rest i e xs (fun b hb => h b (by simp [hb])) hxs)
 end
 
+/-! ## recorded values are among the tokens -/
+
+theorem lookupK_flatAs (T : Table) (d : CmdDef) (e : Bool) : ∀ (l : List Arg) (k : String) (a : Arg),
+    assocGet l k = some a → lookupK (flatAs T d e l) k = some (flatA T d e a).2 ∧ (flatA T d e a).1 = k
+  | [], k, a, h => by simp [assocGet] at h
+  | b :: rest, k, a, h => by
+    have hkey : ∀ x : Arg, (flatA T d e x).1 = x.key := by
+      intro x
+      cases x with
+      | str k v => rfl
+      | strs k l => simp only [flatA, Arg.key]; split <;> rfl
+      | test k n => rfl
+      | tests k l => simp only [flatA, Arg.key]; split <;> rfl
+    simp only [assocGet, List.find?] at h
+    by_cases hb : (b.key == k) = true
+    · simp only [hb] at h
+      injection h with h
+      subst h
+      refine ⟨?_, by rw [hkey]; simpa using hb⟩
+      simp [flatAs, lookupK, List.find?, hkey, hb]
+    · have hb' : (b.key == k) = false := by simpa using hb
+      simp only [hb'] at h
+      have ih := lookupK_flatAs T d e rest k a (by simpa [assocGet] using h)
+      refine ⟨?_, ih.2⟩
+      simpa [flatAs, lookupK, List.find?, hkey, hb'] using ih.1
+
+theorem asm_mem (defs : List ArgDef) (fa fe : List (String × List KT)) (a : ArgDef) (ha : a ∈ defs) (ks : List KT)
+    (hl : lookupK fa a.name = some ks) : ∀ x ∈ ks, x ∈ asm defs fa fe := by
+  induction defs with
+  | nil => simp at ha
+  | cons d rest ih =>
+    intro x hx
+    simp only [List.mem_cons] at ha
+    rcases ha with rfl | ha
+    · simp only [asm, hl]
+      simp [hx]
+    · have := ih ha x hx
+      simp only [asm]
+      split
+      · exact this
+      · simp [this]
+
+/-- a scalar value recorded under a slot of the node's definition is one of the node's tokens, with the kind it is read as -/
+theorem recorded_value_in_flatN (T : Table) (name : Bytes) (args extra : List Arg) (children : List Node) (comments : List Bytes)
+    (d : CmdDef) (hd : T.byName name = some d) (k : String) (v : Bytes) (h : assocGet args k = some (.str k v))
+    (a : ArgDef) (ha : a ∈ d.args) (hak : a.name = k) :
+    (kindOf v, v) ∈ flatN T (.mk name args extra children comments) := by
+  obtain ⟨h1, _⟩ := lookupK_flatAs T d false args k _ h
+  have hm := asm_mem d.args (flatAs T d false args) (flatAs T d true extra) a ha _ (by rw [hak]; exact h1) (kindOf v, v) (by simp [flatA])
+  simp only [flatN, hd]
+  split
+  · split <;> simp [hm]
+  · split <;> simp [hm]
+
+theorem flatN_sub_flatNs (T : Table) (l : List Node) (n : Node) (hn : n ∈ l) : ∀ x ∈ flatN T n, x ∈ flatNs T l := by
+  induction l with
+  | nil => simp at hn
+  | cons m rest ih =>
+    intro x hx
+    simp only [List.mem_cons] at hn
+    simp only [flatNs, List.mem_append]
+    rcases hn with rfl | hn
+    · exact Or.inl hx
+    · exact Or.inr (ih hn x hx)
+
 end Reprint
